@@ -11,6 +11,7 @@ logging.disable(logging.CRITICAL)
 
 props = [json.loads(l) for l in open(os.path.join(V, 'properties.jsonl'))]
 na = json.load(open(os.path.join(V, 'NA.json')))
+claimed = json.load(open(os.path.join(V, 'CLAIMED.json')))
 checks, not_app, served = [], [], []
 for p in props:
     pid = p['id']
@@ -18,7 +19,7 @@ for p in props:
     if pid in na and not os.path.exists(path):
         not_app.append({'property_id': pid, 'reason': na[pid]})
         continue
-    if not os.path.exists(path):
+    if not os.path.exists(path) or pid not in claimed:
         not_app.append({'property_id': pid, 'reason': 'check not built yet in this round (planned, see DESIGN.md §3); nothing is claimed'})
         continue
     mod = importlib.import_module('props.' + pid.lower())
